@@ -35,27 +35,53 @@ func litIn(file, fn, x string, op token.Token, nth int) (uint64, error) {
 		return 0, err
 	}
 	var found []uint64
+	inLargerSum := map[*ast.BinaryExpr]bool{}
 	for _, d := range f.Decls {
 		fd, ok := d.(*ast.FuncDecl)
 		if !ok || fd.Name.Name != fn || fd.Body == nil {
 			continue
 		}
+		env := constEnv(f, fd)
 		ast.Inspect(fd.Body, func(n ast.Node) bool {
 			be, ok := n.(*ast.BinaryExpr)
 			if !ok || be.Op != op {
 				return true
 			}
 			try := func(a, b ast.Expr) {
-				bl, ok := b.(*ast.BasicLit)
-				if !ok || bl.Kind != token.INT {
-					return
-				}
 				if exprString(a) != x {
 					return
 				}
-				v, err := strconv.ParseUint(bl.Value, 0, 64)
-				if err == nil {
+				// the other operand: an integer literal or any constant expression over literals and
+				// constants declared in this file / function (a named constant for a literal is a
+				// harmless rewrite, not a reason to lose the anchor)
+				if v, ok := evalConst(b, env); ok {
 					found = append(found, v)
+				}
+			}
+			// a sum `x + c1 + c2` (left-assoc) whose other operands are all constant: x + (c1+c2)
+			if op == token.ADD {
+				if terms := flattenSum(be); len(terms) > 2 && !inLargerSum[be] {
+					xi, sum, ok := -1, uint64(0), true
+					for i, t := range terms {
+						if exprString(t) == x && xi < 0 {
+							xi = i
+							continue
+						}
+						v, okc := evalConst(t, env)
+						if !okc {
+							ok = false
+							break
+						}
+						sum += v
+					}
+					if ok && xi >= 0 {
+						found = append(found, sum)
+						markSum(be, inLargerSum)
+						return true
+					}
+				}
+				if inLargerSum[be] {
+					return true
 				}
 			}
 			try(be.X, be.Y)
@@ -91,10 +117,8 @@ func constIn(file, fn, name string) (uint64, error) {
 				if id.Name != name || i >= len(vs.Values) {
 					continue
 				}
-				if bl, ok := vs.Values[i].(*ast.BasicLit); ok && bl.Kind == token.INT {
-					if v, err := strconv.ParseUint(bl.Value, 0, 64); err == nil {
-						found = append(found, v)
-					}
+				if v, ok := evalConst(vs.Values[i], constEnv(f, fd)); ok {
+					found = append(found, v)
 				}
 			}
 			return true
@@ -104,6 +128,128 @@ func constIn(file, fn, name string) (uint64, error) {
 		return 0, fmt.Errorf("local constant %s not found exactly once in %s:%s", name, file, fn)
 	}
 	return found[0], nil
+}
+
+// constEnv collects the integer constants visible in fd: the file's package-level `const` declarations and
+// the function's local ones (explicit values only; iota groups are not needed by any anchor).
+func constEnv(f *ast.File, fd *ast.FuncDecl) map[string]ast.Expr {
+	env := map[string]ast.Expr{}
+	add := func(n ast.Node) {
+		ast.Inspect(n, func(n ast.Node) bool {
+			gd, ok := n.(*ast.GenDecl)
+			if !ok || gd.Tok != token.CONST {
+				return true
+			}
+			for _, sp := range gd.Specs {
+				if vs, ok := sp.(*ast.ValueSpec); ok {
+					for i, id := range vs.Names {
+						if i < len(vs.Values) {
+							env[id.Name] = vs.Values[i]
+						}
+					}
+				}
+			}
+			return true
+		})
+	}
+	for _, d := range f.Decls {
+		if gd, ok := d.(*ast.GenDecl); ok {
+			add(gd)
+		}
+	}
+	if fd != nil && fd.Body != nil {
+		add(fd.Body)
+	}
+	return env
+}
+
+// sizes of standard-library constants a refactoring may spell by name
+var stdConsts = map[string]uint64{"sha256.Size": 32, "aes.BlockSize": 16, "sha256.BlockSize": 64}
+
+// evalConst evaluates an integer constant expression over literals, the constants of env, a few
+// standard-library sizes, + - * / << >> and integer conversions. ok=false when e is not such an expression.
+func evalConst(e ast.Expr, env map[string]ast.Expr) (uint64, bool) {
+	return evalConstD(e, env, 0)
+}
+
+func evalConstD(e ast.Expr, env map[string]ast.Expr, depth int) (uint64, bool) {
+	if depth > 20 {
+		return 0, false
+	}
+	switch v := e.(type) {
+	case *ast.BasicLit:
+		if v.Kind != token.INT {
+			return 0, false
+		}
+		n, err := strconv.ParseUint(strings.ReplaceAll(v.Value, "_", ""), 0, 64)
+		return n, err == nil
+	case *ast.Ident:
+		if d, ok := env[v.Name]; ok {
+			return evalConstD(d, env, depth+1)
+		}
+		return 0, false
+	case *ast.SelectorExpr:
+		n, ok := stdConsts[exprString(v)]
+		return n, ok
+	case *ast.ParenExpr:
+		return evalConstD(v.X, env, depth+1)
+	case *ast.CallExpr: // integer conversion int(x), uint32(x), ...
+		if id, ok := v.Fun.(*ast.Ident); ok && len(v.Args) == 1 {
+			switch id.Name {
+			case "int", "int32", "int64", "uint", "uint8", "uint16", "uint32", "uint64", "byte":
+				return evalConstD(v.Args[0], env, depth+1)
+			}
+		}
+		return 0, false
+	case *ast.BinaryExpr:
+		a, ok1 := evalConstD(v.X, env, depth+1)
+		b, ok2 := evalConstD(v.Y, env, depth+1)
+		if !ok1 || !ok2 {
+			return 0, false
+		}
+		switch v.Op {
+		case token.ADD:
+			return a + b, true
+		case token.SUB:
+			return a - b, a >= b
+		case token.MUL:
+			return a * b, true
+		case token.QUO:
+			if b == 0 {
+				return 0, false
+			}
+			return a / b, true
+		case token.SHL:
+			return a << b, b < 64
+		case token.SHR:
+			return a >> b, b < 64
+		}
+	}
+	return 0, false
+}
+
+// flattenSum returns the operands of a left- or right-nested chain of `+`.
+func flattenSum(e ast.Expr) []ast.Expr {
+	if p, ok := e.(*ast.ParenExpr); ok {
+		return flattenSum(p.X)
+	}
+	if be, ok := e.(*ast.BinaryExpr); ok && be.Op == token.ADD {
+		return append(flattenSum(be.X), flattenSum(be.Y)...)
+	}
+	return []ast.Expr{e}
+}
+
+// markSum marks the inner `+` nodes of a chain that has been handled as a whole.
+func markSum(e ast.Expr, seen map[*ast.BinaryExpr]bool) {
+	if p, ok := e.(*ast.ParenExpr); ok {
+		markSum(p.X, seen)
+		return
+	}
+	if be, ok := e.(*ast.BinaryExpr); ok && be.Op == token.ADD {
+		seen[be] = true
+		markSum(be.X, seen)
+		markSum(be.Y, seen)
+	}
 }
 
 func exprString(e ast.Expr) string {
